@@ -31,7 +31,7 @@ func genSim(r *term.Rng, idx int) term.T {
 			return term.C("TId", term.I(anyID()))
 		}
 	}
-	dmgs := []float64{10, 50, 100, 250, 400, 1000, 2000, 0.1, 33.3}
+	dmgs := []float64{10, 50, 100, 250, 400, 1000, 2000, 0.1, 33.3, 0}
 	fracs := []float64{0, 0, 0.25, 0.5, 1, 1}
 	prios := []int64{45, 48, 55, 75, 75, 115, 175, 500, 500}
 	flags := []int64{1, 3, 100}
